@@ -79,9 +79,11 @@ class UNetModelShapes(Contract):
     cases = (_grid([16], [2], [None], [1.5, 2], [2], [True, False], [True], ["single_instance", "bottomup"])
              + _grid([8, 32], [1, 4], [None, 2], [2], [2, 3], [True, False], [True], ["centroid", "centered_instance"])[::3]
              # non-integer filter products (filters * 1.5**k): rounding in the channel bookkeeping
-             + _grid([16, 32], [2], [None], [1.5], [2], [True], [True], ["single_instance", "bottomup"], filters=(8, 24, 16)))
+             + _grid([16, 32], [2], [None], [1.5], [2], [True], [True], ["single_instance", "bottomup"], filters=(8, 24, 16))
+             # two and three stem blocks (stem_stride 4, 8): the stem's pooling layers on the SECOND call
+             + _grid([16, 32], [2], [4, 8], [2], [2], [True, False], [True], ["single_instance", "centroid"]))
     # middle_block=True: carve-out of known finding C14/no-middle-block
-    thorough_cases = _grid([8, 16, 32], [1, 2, 4], [None, 2], [1.5, 2], [2, 3], [True, False], [True], ["single_instance", "centroid", "centered_instance", "bottomup"], filters=(8, 16, 24))
+    thorough_cases = _grid([8, 16, 32], [1, 2, 4], [None, 2, 4, 8], [1.5, 2], [2, 3], [True, False], [True], ["single_instance", "centroid", "centered_instance", "bottomup"], filters=(8, 16, 24))
     bounded = ("UNet family only; the configuration grid (max_stride x output_stride x stem_stride x filters_rate x convs_per_block x up_interpolate x middle_block x filters x head type/strides) is finite "
                "by the property and enumerated (quick: a sample; thorough: the full grid listed in the contract); input sizes and batch are symbolic",)
     not_decided = ("ConvNeXt and Swin-T backbones (torchvision model internals are outside the modelled library subset)",
